@@ -27,6 +27,10 @@ pub use instruction::{Instruction, InstructionRegister};
 pub use microprogram_ram::{MicroprogramRam, Word};
 pub(crate) use raw::Interrupt;
 pub use raw::{RawMachine, Signals, State};
+#[cfg(feature = "verif-hooks")]
+pub use bus::VerifBus;
+#[cfg(feature = "verif-hooks")]
+pub use raw::VerifRaw;
 pub use register::{Flags, Register, RegisterNumber};
 
 /// A higher level abstraction over the [`RawMachine`].
